@@ -1,5 +1,5 @@
 (* Properties/C03.v — priorities: the highest-priority writer wins, the latest among equals; metadata is combined. *)
-From AY Require Import Model.Merge Proofs.Prio Proofs.FactsOk Model.Loader Proofs.PrioBelow.
+From AY Require Import Model.Merge Proofs.Prio Proofs.FactsOk Model.Loader Proofs.PrioBelow Spec.UpdateP Proofs.MergeGen Proofs.MergePrio Proofs.PrioPath Proofs.PrioLoad Proofs.PrioClass.
 
 (* the order of the three priority constants is what the documentation says: !force > untagged > !weak *)
 Theorem C03_constants : (Facts.prio_weak <? Facts.prio_standard)%Z = true /\ (Facts.prio_standard <? Facts.prio_force)%Z = true
@@ -65,3 +65,68 @@ Example C03_example :
   let w p v := Leaf LScalar (set_prio F0 p) (SInt v) in
   nvalue (lfold (w (Some (-1)) 1) [w (Some 1) 2; w None 3; w (Some 1) 4; w (Some (-1)) 5]) = Some (SInt 4).
 Proof. vm_compute. reflexivity. Qed.
+
+(* ---- the whole merge as a refinement (extension round) ----
+   Spec.UpdateP.upd_p is the reference semantics of merging values that carry priorities: two mappings merge key by key (the result
+   carries the higher priority); in every other case the older value survives iff its priority is STRICTLY higher.
+   For any number of mapping documents whose scalars and enclosing mappings carry arbitrary !force / !weak / !metadata{{priority}}
+   tags (no !del / !new marks, no lists), in any order of strong / normal / weak writers, Builder.flatten succeeds and the tree it
+   builds has exactly the priority image (values AND priorities of all nodes) of the left fold of upd_p over the documents' images
+   [yprio] (every node carries the priority of its outermost tagged ancestor-or-self, else the default). *)
+Theorem C03_priorities_refine : forall e c y0 ys, Forall yz (y0 :: ys) -> forallb is_YM (y0 :: ys) = true ->
+  exists n, flatten e (map (load_doc c) (y0 :: ys)) = Ok n /\ perase n = fold_left upd_p (map (yprio None) ys) (yprio None y0).
+Proof. exact flatten_prio_docs. Qed.
+Print Assumptions C03_priorities_refine.
+
+(* the property as stated: for every path q whose spine consists of mappings in every document and which holds scalars wherever
+   it holds anything, the merged value at q is the one written by the LATEST document among those whose value there has the
+   HIGHEST priority - the writers w0 :: ws (in document order, (priority, value)) split as pre ++ (p, v) :: post with everything
+   before of lower-or-equal and everything after of strictly lower priority; if no document writes q, the result has nothing there *)
+Theorem C03_every_leaf_path_latest_of_highest : forall e c y0 ys q,
+  Forall yz (y0 :: ys) -> forallb is_YM (y0 :: ys) = true -> q <> [] ->
+  Forall (fun y => sp (yprio None y) q /\ leafy q (yprio None y)) (y0 :: ys) ->
+  exists n, flatten e (map (load_doc c) (y0 :: ys)) = Ok n /\
+    match flat_map (wat q) (map (yprio None) (y0 :: ys)) with
+    | [] => pget (perase n) q = None
+    | w0 :: ws =>
+      exists pre post p v,
+        w0 :: ws = pre ++ (p, v) :: post /\
+        Forall (fun x => (fst x <= p)%Z) pre /\ Forall (fun x => (fst x < p)%Z) post /\
+        pget (perase n) q = Some (PPS p v)
+    end.
+Proof. exact docs_leaf_path_winner. Qed.
+Print Assumptions C03_every_leaf_path_latest_of_highest.
+
+(* the same at the level of node trees (whatever built them): stages of the class NewZ - only scalars and mappings, no explicit
+   delete / new marks, priorities and everything else free *)
+Theorem C03_merge_is_prioritised_update : forall e s0 sts, Forall NewZ (s0 :: sts) -> forallb is_dictk (s0 :: sts) = true ->
+  exists n, flatten e (s0 :: sts) = Ok n /\ perase n = fold_left upd_p (map perase sts) (perase s0).
+Proof. exact flatten_prio. Qed.
+Print Assumptions C03_merge_is_prioritised_update.
+
+(* the class is decidable; the checker the correspondence runs on the trees the real loader built is sound *)
+Theorem C03_prediction_sound : forall e stages d, predict_prio stages = Some d -> exists n, flatten e stages = Ok n /\ perase n = d.
+Proof. exact predict_prio_ok. Qed.
+Print Assumptions C03_prediction_sound.
+
+(* path by path, on the specification alone: the fold of upd_p holds at q the fold of what the stages hold at q *)
+Theorem C03_update_is_pointwise : forall ds d0 q, q <> [] -> sp d0 q -> Forall (fun d => sp d q /\ pwf d) ds ->
+  pget (fold_left upd_p ds d0) q = fold_left wr (map (fun d => pget d q) ds) (pget d0 q).
+Proof. exact pget_fold. Qed.
+Print Assumptions C03_update_is_pointwise.
+
+(* non-vacuity: three documents; `a.x` is written weak, then force (through the enclosing mapping), then untagged;
+   `a.y` only by the tagged mapping; `b` normal then weak *)
+Example C03_refine_example :
+  let F := mkT (Some 1) None None None [] in
+  let W := mkT (Some (-1)) None None None [] in
+  let d1 := YM T0 [(KS 1, YM T0 [(KS 2, YS W (SInt 1))]); (KS 3, YS T0 (SInt 10))] in
+  let d2 := YM T0 [(KS 1, YM F [(KS 2, YS T0 (SInt 2)); (KS 4, YS W (SInt 7))])] in
+  let d3 := YM T0 [(KS 1, YM T0 [(KS 2, YS T0 (SInt 3))]); (KS 3, YS W (SInt 11))] in
+  match flatten [] (map (load_doc (mkLC (Some true) 1)) [d1; d2; d3]) with
+  | Ok n => pvals (perase n) = PD [(KS 1, PD [(KS 2, PS (SInt 2)); (KS 4, PS (SInt 7))]); (KS 3, PS (SInt 10))]
+            /\ perase n = fold_left upd_p (map (yprio None) [d2; d3]) (yprio None d1)
+            /\ flat_map (wat [KS 1; KS 2]) (map (yprio None) [d1; d2; d3]) = [(-1, SInt 1); (1, SInt 2); (0, SInt 3)]
+  | Err _ _ => False
+  end.
+Proof. vm_compute. repeat split; reflexivity. Qed.
